@@ -13,7 +13,8 @@ MODEL_NOTE = ("FFSPEnv modelled per batch row over integers (Rl4co/Env/Ffsp.lean
               "`done.all()` is an explicit flag of the row step; int64 arithmetic, no float involved before the "
               "final cast of the reward; torch advanced indexing / `batchify` layout are glue compared on every run")
 SCOPE_NOTE = ("scope: states up to and including the step at which the whole batch is finished (the bundled loops stop "
-              "there); the env's observables `stage_idx` / `stage_machine_idx` (policy inputs) are not compared")
+              "there); both flatten_stages settings, IndexTables (permutation table, set_bs, get_*_index) and the "
+              "generator are inside the model and compared; the env object is re-used across resets with growing batch sizes")
 
 
 def shapes(ctx):
@@ -26,19 +27,56 @@ def make_batch(ctx, S, M, J, B, env, kinds=None):
     return [fc.gen_inst(ctx.rng, S, M, J, ctx.rng.choice(kinds or fc.KINDS), env) for _ in range(B)]
 
 
+def warm_up(ctx, env, insts):
+    """The env object is cached per shape and re-used; before some batches it is additionally reset with a
+    SMALLER batch (and stepped once), so that anything the env object remembers from an earlier, smaller
+    reset (IndexTables.bs, tables, step counters) would leak into the batch under test."""
+    ctx._ffsp_warm = None
+    if ctx.rng.random() < 0.5:
+        small = insts[: ctx.rng.choice([1, 1, 2])]
+        td = env.reset(fc.to_td(small))
+        ctx._ffsp_warm = len(small)
+        ctx.count("ffsp.env-reused-after-smaller-reset")
+        if ctx.rng.random() < 0.5:
+            feas = [[j for j, b in enumerate(td["action_mask"][r].tolist()) if b][0] for r in range(len(small))]
+            td.set("action", fc.torch.tensor(feas, dtype=fc.torch.long))
+            fc.guarded_step(env, td)
+
+
+def report_crash(ctx, ep, rows, B, k):
+    if ep.crashed:
+        ctx.violation("ffsp:env-raises",
+                      "the real env raises on a well-formed batch (same env object, earlier reset with batch size "
+                      f"{getattr(ctx, '_ffsp_warm', None)}; this batch: {B} instances x {k} starts): {ep.crashed}",
+                      {"insts": rows, "B": B, "k": k, "earlier_reset_batch_size": getattr(ctx, "_ffsp_warm", None),
+                       "error": ep.crashed})
+
+
 def expand(insts, k):
     """instances of the rows after `batchify(td, k)`: copy j of instance b at row j*B + b, using machine
     permutation j (`pomo_idx = row // bs`)."""
     return [dict(i, pomo=j) for j in range(k) for i in insts]
 
 
-def drive(ctx, S, M, J, B, k=1, kinds=None, wait_bias=None, flatten=True):
+def drive(ctx, S, M, J, B, k=1, kinds=None, wait_bias=None, flatten=None):
+    if flatten is None:
+        flatten = ctx.rng.random() < 0.5
     env = fc.get_env(S, M, J, flatten)
     insts = make_batch(ctx, S, M, J, B, env, kinds)
+    if any(i["kind"] == "large" for i in insts) and S * M * J > 12:
+        for i in insts:
+            if i["kind"] == "large":
+                i["dur"] = [[min(d, 7) for d in row] for row in i["dur"]]
+    ctx.count(f"ffsp.flatten_stages={flatten}")
+    warm_up(ctx, env, insts)
     wb = ctx.rng.choice([0.0, 0.3, 0.8]) if wait_bias is None else wait_bias
     rows = expand(insts, k)
     cap = 2 * max(fc.step_bound(i) for i in rows) + 10
     ep = fc.run_real(env, insts, fc.chooser(ctx.rng, wb, J), k=k, max_steps=cap)
+    report_crash(ctx, ep, rows, B, k)
+    if ctx.rng.random() < 0.3 and not ep.crashed:
+        fc.check_tables(ctx, env, B, k)
+    fc.judge_generator(ctx)
     return env, rows, ep
 
 
@@ -71,7 +109,7 @@ def run_c07(ctx):
         B = ctx.rng.choice([1, 2, 4])
         k = ctx.rng.choice([1, 1, 2, math.factorial(M)])
         k = min(k, math.factorial(M))
-        env, rows, ep = drive(ctx, S, M, J, B, k, flatten=ctx.rng.random() < 0.5)
+        env, rows, ep = drive(ctx, S, M, J, B, k)
         if ep.hung or ep.empty_mask_rows:
             ctx.violation("ffsp:episode-did-not-finish", "real episode hung / hit an empty mask",
                           {"insts": rows, "actions": ep.actions, "hung_inside_env_step": ep.hung_in_step})
@@ -134,7 +172,7 @@ def run_c02(ctx):
             if jobsteps != J_ * S_:
                 ctx.violation("ffsp:op-steps", f"{jobsteps} scheduling steps before finishing, expected {J_ * S_}",
                               {"inst": rows[r], "actions": ep.actions[r]})
-            if "bound" in f and all(d >= 1 for row in rows[r]["dur"] for d in row) and int(f["bound"]) != fc.step_bound(rows[r]):
+            if "bound" in f and int(f["bound"]) != fc.step_bound(rows[r]):
                 ctx.disagreement("ffsp: step bound differs", {"model": f["bound"], "harness": fc.step_bound(rows[r])})
             if fin > fc.step_bound(rows[r]):
                 ctx.violation("ffsp:step-bound", f"row needed {fin} steps, bound is {fc.step_bound(rows[r])}",
@@ -149,8 +187,8 @@ def run_c02(ctx):
                 if ep.masks[r][q] != "0" * J_ + "1":
                     ctx.violation("ffsp:finished-row-mask", "finished row is not offered exactly the wait action",
                                   {"inst": rows[r], "actions": ep.actions[r], "step": q, "mask": ep.masks[r][q]})
-        ctx.sample({"env": "ffsp", "shape": (S, M, J), "B": B, "k": k, "steps": ep.steps,
-                    "first_done": [d.index(1) if 1 in d else None for d in ep.done]})
+        ctx.sample({"env": "ffsp", "shape": (S, M, J), "B": B, "k": k, "steps": ep.steps, "inst0": rows[0],
+                    "actions0": ep.actions[0], "first_done": [d.index(1) if 1 in d else None for d in ep.done]})
         n += len(rows)
 
 
@@ -205,13 +243,21 @@ def run_c04(ctx):
         if B * k > 24:
             k = 1
         kinds = ctx.rng.choice([None, ["fast", "skewed"], ["fast", "random", "gen"]])
-        env = fc.get_env(S, M, J)
+        flatten = ctx.rng.random() < 0.5
+        env = fc.get_env(S, M, J, flatten)
+        ctx.count(f"ffsp.flatten_stages={flatten}")
         insts = make_batch(ctx, S, M, J, B, env, kinds)
+        warm_up(ctx, env, insts)
         if ctx.rng.random() < 0.5:  # copies of itself among the batch-mates
             insts[ctx.rng.randrange(B)] = insts[0]
         rows = expand(insts, k)
         cap = 2 * max(fc.step_bound(i) for i in rows) + 10
         ep = fc.run_real(env, insts, fc.chooser(ctx.rng, ctx.rng.choice([0.0, 0.3, 0.8]), J), k=k, max_steps=cap)
+        report_crash(ctx, ep, rows, B, k)
+        if ep.crashed:
+            continue
+        fc.check_tables(ctx, env, B, k)
+        fc.judge_generator(ctx)
         if ep.hung or ep.empty_mask_rows:
             ctx.count("ffsp.unfinished-skipped")
             ctx.violation("ffsp:episode-did-not-finish", "real episode hung / hit an empty mask",
@@ -233,6 +279,9 @@ def run_c04(ctx):
             fin = d.index(1)
             solo_actions = ep.actions[r][:fin]
             ep1 = fc.run_real(env, [rows[r]], lambda *_: 0, forced=[solo_actions], max_steps=fin)
+            if ep1.crashed:
+                report_crash(ctx, ep1, [rows[r]], 1, 1)
+                continue
             ctx.case(("ffsp", repr(rows[r]), tuple(ep.actions[r]), len(rows), r), nontrivial=len(rows) > 1)
             ctx.count(f"ffsp.B={len(rows)}")
             wit = {"inst": rows[r], "batched_actions": ep.actions[r], "solo_actions": solo_actions, "row": r,
@@ -262,7 +311,8 @@ def run_c04(ctx):
                 a, b = fc.real_sched(ep1.td, 0), fc.real_sched(ep.td, r)
                 if any(a[q] != b[q] for q in range(len(a)) if q % Jc != J):
                     ctx.violation("ffsp:batch-dependence:schedule", "real-job schedule differs between solo and batched run", wit)
-        ctx.sample({"env": "ffsp", "shape": (S, M, J), "B": B, "k": k, "steps": ep.steps})
+        ctx.sample({"env": "ffsp", "shape": (S, M, J), "B": B, "k": k, "steps": ep.steps, "inst0": rows[0],
+                    "actions0": ep.actions[0], "reward0": fc.real_reward(ep.td, 0)})
 
 
 # ---------------------------------------------------------------------------------------------------------
@@ -276,11 +326,13 @@ TINY = [  # (S, M, J, max duration)
 def tiny_instance(ctx, g):
     S, M, J, dmax = TINY[g % len(TINY)] if g < 2 * len(TINY) else ctx.rng.choice(TINY)
     MT = S * M
-    mode = ctx.rng.choice(["random", "skewed", "ties"])
+    mode = ctx.rng.choice(["random", "skewed", "ties", "zero"])
     if mode == "skewed":
         dur = [[(1 if m % M == 0 else dmax) for m in range(MT)] for _ in range(J)]
     elif mode == "ties":
         dur = [[1 for _ in range(MT)] for _ in range(J)]
+    elif mode == "zero":  # zero durations: several operations may start at the same time, a machine only one
+        dur = [[ctx.rng.choice([0, 0, 1, dmax]) for _ in range(MT)] for _ in range(J)]
     else:
         dur = [[ctx.rng.randint(1, dmax) for _ in range(MT)] for _ in range(J)]
     return {"kind": "tiny-" + mode, "S": S, "M": M, "J": J, "dur": dur, "pomo": 0}
@@ -291,7 +343,9 @@ def run_c05(ctx):
     for g in range(total):
         inst = tiny_instance(ctx, g)
         S, M, J = inst["S"], inst["M"], inst["J"]
-        env = fc.get_env(S, M, J)
+        flatten = ctx.rng.random() < 0.5
+        env = fc.get_env(S, M, J, flatten)
+        inst["flat"] = flatten
         H = fc.work_bound(inst)
         ncand = (M * (H + 1)) ** (J * S)
         if ncand > 400000:
@@ -354,6 +408,14 @@ THEOREMS = {
           "that stage, stages in order without overlap, machines never double-booked); any S, M, J, durations ≥ 0"),
         T("Rl4co.Ffsp.schedule_valid_row", "proved",
           "row of any batch: after any admitted step with any value of the batch-global done.all(), a finished row carries a valid schedule"),
+        T("Rl4co.Ffsp.bookMachine_eq", "proved",
+          "obligation on the extracted source key: _step books schedule / duration / machine wait on td['machine_idx'] "
+          "(never on stage_machine_idx, which differs when flatten_stages=False)"),
+        T("Rl4co.Ffsp.smidx_unflat", "proved",
+          "flatten_stages=False: machine_idx = stage_machine_idx + M·stage_idx and stage_machine_idx < M in every state of a running row"),
+        T("Rl4co.Ffsp.smidx_flat", "proved", "flatten_stages=True: stage_machine_idx = machine_idx"),
+        T("Rl4co.Ffsp.apply_flat_irrelevant", "proved", "the bookkeeping of _step does not depend on flatten_stages"),
+        T("Rl4co.Ffsp.rowInst_wf", "proved", "the instance a batch row is stepped as (permutation from IndexTables) is WF"),
         T("Rl4co.Ffsp.job_steps", "proved", "in a finished episode every job was chosen exactly S times (all other actions are waits)"),
         T("Rl4co.Ffsp.reward_eq_makespan", "proved", "solo: the reward written equals minus the Spec makespan (latest completion)"),
         T("Rl4co.Ffsp.reward_eq_makespan_row", "proved", "row of a batch: the reward written at the batch's last step is minus the makespan"),
@@ -362,6 +424,7 @@ THEOREMS = {
         T("Rl4co.Ffsp.reward_eq_makespan", "proved",
           "solo: reward is written at the finishing step and equals −makespan of the schedule (durations < 999999, the sentinel)"),
         T("Rl4co.Ffsp.reward_eq_makespan_row", "proved", "row of a batch: same at the step where done.all() becomes true"),
+        T("Rl4co.Ffsp.rewardCols_eq", "proved", "obligation on the extracted slice bound: the makespan ignores the dummy (wait) column"),
         T("Rl4co.Ffsp.reward_needs_duration_bound", "proved",
           "counterexample (known finding): without the duration bound the reward is not −makespan (sentinel −999999 wins the max)"),
     ],
@@ -374,8 +437,13 @@ THEOREMS = {
         T("Rl4co.Ffsp.finished_offers_wait_only", "proved", "a finished row next to running batch-mates is offered exactly the wait action"),
         T("Rl4co.Ffsp.done_stable", "proved", "done is absorbing under every admitted step, whatever done.all() is"),
         T("Rl4co.Ffsp.clock_increases", "proved", "(time_idx, sub_time_idx) strictly increases on every step that leaves the row unfinished"),
-        T("Rl4co.Ffsp.time_le_work", "proved", "positive durations: time_idx of an unfinished row ≤ total work D"),
-        T("Rl4co.Ffsp.steps_le", "proved", "positive durations: a row is finished after at most (D+1)·M·S steps"),
+        T("Rl4co.Ffsp.time_le_work", "proved", "all durations ≥ 0: time_idx of an unfinished row ≤ total work D (a duration 0 counted as 1)"),
+        T("Rl4co.Ffsp.steps_le", "proved", "all durations ≥ 0: a row is finished after at most (D+1)·M·S steps"),
+        T("Rl4co.Ffsp.default_gen_wf", "proved",
+          "instances of the bundled generator at its (extracted) default parameters, at any batch row inside the permutation "
+          "table, are WF with positive durations — so all C02 theorems apply to them"),
+        T("Rl4co.Ffsp.gen_wf", "proved", "run_time = min_time + u, u < max_time − min_time, max_time ≤ 999999 ⇒ WF"),
+        T("Rl4co.Ffsp.params_match", "proved", "the operators / constants / statement shapes the model hard-codes are the extracted ones"),
         T("Rl4co.Ffsp.steps_le_solo", "proved", "same for the instance stepped alone"),
         T("Rl4co.Ffsp.stale_mask_after_all_done", "proved",
           "scope remark made precise: after the step finishing the whole batch the stored mask still offers the last job, whose choice would un-finish the row"),
@@ -391,6 +459,11 @@ THEOREMS = {
           "the batched while-loop of _move_to_next_machine (shrinking index set) acts on every row independently"),
         T("Rl4co.Ffsp.batchMove_eq_moveNext", "proved",
           "with the unfinished rows selected and enough global fuel, the batched loop = per-row moveNext on every row"),
+        T("Rl4co.Ffsp.permsOf_length", "proved", "IndexTables: the permutation table has M! rows (get_num_starts)"),
+        T("Rl4co.Ffsp.tables_perm_lt", "proved", "every table row a batch row can select maps 0..M-1 into itself"),
+        T("Rl4co.Ffsp.kmajor_perm", "proved",
+          "after reset with batch size B and batchify(td, k): row j·B+b is stepped with table row j (pomo_idx = row // bs, operator extracted)"),
+        T("Rl4co.Ffsp.unreplicated_identity", "proved", "un-replicated batch: every row, at every position, sweeps machines in identity order"),
         T("Rl4co.Ffsp.pomoIdx_layout", "proved", "IndexTables: under the k-major batchify layout row j·B+b uses machine permutation j"),
         T("Rl4co.Ffsp.terminal_mask_batch_dependent", "proved",
           "counterexample (known finding): the mask of a row's terminal state differs between solo and batched runs"),
@@ -398,28 +471,39 @@ THEOREMS = {
     "C05": [
         T("Rl4co.Ffsp.mask_iff_available", "proved",
           "per decision the mask offers exactly the jobs in the current stage whose previous operation is completed by now (≤, equality included)"),
+        T("Rl4co.Ffsp.episode_expressible", "proved",
+          "soundness of the class: the schedule of every finished mask-confined episode is Spec.Ffsp.Expressible (all durations ≥ 0)"),
+        T("Rl4co.Ffsp.finished_row_expressible", "proved", "same for a row of any batch, whatever the batch-mates do"),
+        T("Rl4co.Ffsp.expressible_reachable", "proved",
+          "completeness of the class: every valid expressible schedule is the schedule of some finished mask-confined episode"),
+        T("Rl4co.Ffsp.reachable_iff_expressible", "proved", "mask-reachable schedule matrices = matrices whose operation list is valid and expressible"),
+        T("Rl4co.Ffsp.reachable_rewards_eq", "proved", "rewards reachable through the mask = negated makespans of the valid expressible schedules"),
+        T("Rl4co.Ffsp.best_reward_is_expressible_optimum", "proved",
+          "best reward through the mask = −(least makespan over valid expressible schedules), as an ∃…∧∀… equivalence"),
+        T("Rl4co.Ffsp.rowInst_permBij", "proved", "every IndexTables row is a bijection, so the class theorems apply to every batch row"),
+        T("Rl4co.Spec.Ffsp.expressible_iff", "proved", "the run-time oracle `expressible` is the decision procedure of the definition"),
         T("Rl4co.Ffsp.not_opt_reachable", "proved",
-          "counterexample (known finding): the statement 'some mask-confined episode is as good as any valid schedule' is false"),
-        T("Rl4co.Ffsp.optimum_hidden", "partial",
+          "counterexample (known finding): 'some mask-confined episode is as good as any VALID schedule' is false"),
+        T("Rl4co.Ffsp.optimum_hidden", "proved",
           "on the witness every episode has makespan 3 under either machine permutation while a valid schedule has 2"),
     ],
 }
 MODULES = {
-    "C07": ["Rl4co.Props.C07.Ffsp", "Rl4co.Props.C03.Ffsp"],
+    "C07": ["Rl4co.Props.C07.Ffsp", "Rl4co.Props.C03.Ffsp", "Rl4co.Proofs.FfspTables"],
     "C03": ["Rl4co.Props.C03.Ffsp"],
-    "C02": ["Rl4co.Props.C02.Ffsp"],
-    "C04": ["Rl4co.Props.C04.Ffsp"],
+    "C02": ["Rl4co.Props.C02.Ffsp", "Rl4co.Proofs.FfspTables"],
+    "C04": ["Rl4co.Props.C04.Ffsp", "Rl4co.Proofs.FfspTables"],
     "C05": ["Rl4co.Props.C05.Ffsp"],
 }
 EXTRA = {
-    "C02": ["WF: S, M, J ≥ 1, perm maps 0..M-1 into itself; the step/time bound additionally assumes all durations ≥ 1 "
-            "(the generator draws from [2, 10)); zero durations are exercised by the correspondence only"],
+    "C02": ["WF: S, M, J ≥ 1, perm maps 0..M-1 into itself, durations in [0, 999999); the step/time bound holds for all such "
+            "instances (zero durations included: a duration 0 counts as 1 in D)"],
     "C03": ["WF.dur_lt: durations < 999999 (the schedule's 'unset' sentinel); a larger duration on an unused machine would "
             "win the max over the whole schedule+duration matrix"],
     "C04": ["the batched while-loop of _move_to_next_machine is modelled (batchMoveLoop) and proved equal to the per-row "
             "loops; that the torch index-set code implements batchMoveLoop is compared on every run (clock of every row)"],
-    "C05": ["Spec.Ffsp.expressible (the declarative class of mask-reachable schedules) is validated exhaustively against "
-            "the real env on tiny instances, not proved equal to the reachable set"],
+    "C05": ["the class theorems assume a bijective machine permutation (proved for every IndexTables row); the exhaustive "
+            "exploration of the real env on tiny instances (zero durations included) ties Spec.Ffsp.Expressible to the code"],
 }
 for prop, fn in UNITS:
     mods = MODULES.get(prop, [])
